@@ -23,6 +23,11 @@ func init() {
 func goParseDeep(a []string) string {
 	var n int
 	fmt.Sscan(a[0], &n)
+	return goParse([]string{h.Hex(chainBoc(n))})
+}
+
+// chainBoc: a bag of cells holding one chain of n cells.
+func chainBoc(n int) []byte {
 	size := h.MinSize(n)
 	t := make([]h.Row, n)
 	for i := range t {
@@ -33,8 +38,7 @@ func goParseDeep(a []string) string {
 	}
 	tot := h.DataSize(size, t, nil)
 	off := (bits.Len(uint(tot)) + 7) / 8
-	bs := h.EmitBoc(h.EmitParams{Size: size, OffBytes: off}, t, []int{0})
-	return goParse([]string{h.Hex(bs)})
+	return h.EmitBoc(h.EmitParams{Size: size, OffBytes: off}, t, []int{0})
 }
 
 // ------------------------------------------------------------------------------------------------ raw bag of cells
@@ -203,9 +207,18 @@ func (cg *cgen) adversarial() []byte {
 					c[k] = 0
 				}
 				g.Count("adv_cell_zeroed")
-			case 10: // pruned branch too short for its mask
-				c = []byte{byte(8 + 32*(1+g.Rng.Intn(7))), 2 * byte(1+g.Rng.Intn(20)), 1}
-				c = append(c, g.Bytes(int(c[1]/2)-1)...)
+			case 10: // pruned branch too short for its mask: lengths around 2+32k (hashes) and 2+34k (hashes + depths)
+				mask := 1 + g.Rng.Intn(7)
+				k := bits.OnesCount(uint(mask))
+				l := g.Pick(1, 2, 2+32*k-1, 2+32*k, 2+32*k+1, 2+33*k, 2+34*k-2, 2+34*k-1, 2+34*k, 1+g.Rng.Intn(20))
+				if l > 127 {
+					l = 127
+				}
+				c = []byte{byte(8 + 32*mask), 2 * byte(l), 1, byte(mask)}
+				c = append(c, g.Bytes(l)...)[:2+l]
+				for j := 2 + 32*k; j < len(c); j += 2 { // small stored depths
+					c[j] = 0
+				}
 				g.Count("adv_cell_pruned_short")
 			default: // more refs than 4
 				c[0] = c[0]&^7 | byte(5+g.Rng.Intn(3))
@@ -502,6 +515,9 @@ func genC07(g *h.G) {
 		emitInput(g, "random", bs)
 	}
 	// (e) deep acyclic chains: the hasher recurses once per level before it can answer ErrDepthIsTooBig
+	for _, n := range []int{1024, 1025, 1026, 1027, 3000} {
+		emitInput(g, "depth_boundary_chain", chainBoc(n)) // 1025 cells = depth 1024 is the deepest accepted
+	}
 	for _, n := range []int{1025, 1026, 5000, 20000} {
 		g.Count("deep_chain")
 		g.Emit("go.parse.deep", fmt.Sprint(n))
